@@ -650,3 +650,20 @@ Proof.
   - now apply inv_rel_latest.
   - intros id. rewrite <- !vlastc_current. apply (ir_last _ _ Hr).
 Qed.
+
+(** ** latest pointers always name existing versions *)
+Lemma cinv_no_dangling d : cinv d -> forall id, dangling d id = false.
+Proof.
+  intros Hd id. unfold dangling. rewrite (ci_ptr _ Hd).
+  destruct (last_entry (d_entries d) id) as [e|] eqn:El; cbn [option_map ekey]; [|reflexivity].
+  now rewrite (find_last_entry _ _ _ (ci_sorted _ Hd) El).
+Qed.
+
+(** after a kill at ANY flush boundary (k flush transactions committed, k arbitrary) the state is one flush of a prefix of
+    the instruction stream and no latest pointer dangles *)
+Theorem crash_no_dangling fl thr order k d :
+  f_lenkeys fl = false -> cinv d -> NoDup order ->
+  forall id, dangling (compact_crash cf_fixed fl thr order k d) id = false.
+Proof.
+  intros Hfl Hd Hnd. apply cinv_no_dangling. exact (ir_inv _ _ (crash_invisible fl thr order k d Hfl Hd Hnd)).
+Qed.
